@@ -425,6 +425,10 @@ impl<'tcx> Cx<'tcx> {
                             };
                             let name = def.variant(v).fields[f].name;
                             fo.set("n", J::s(name.as_str()));
+                            if !def.is_box() {
+                                fo.set("a", J::s(&self.cid(def.did())));
+                                fo.set("v", J::s(def.variant(v).name.as_str()));
+                            }
                         }
                         ty::Closure(cdid, _) => {
                             if let Some(l) = cdid.as_local() {
